@@ -380,6 +380,8 @@ pub fn scenarios(tier: Tier) -> Vec<Scenario> {
         add(Race { seqs: vec![vec![S, L2], vec![L2]], late_add: false, eintr: 2 }, 3);
         add(Race { seqs: vec![vec![S], vec![S, S]], late_add: true, eintr: 2 }, 3);
         add(Race { seqs: vec![vec![L2], vec![S], vec![S, L2]], late_add: true, eintr: 1 }, 2);
+        add(Race { seqs: vec![vec![S, S], vec![S]], late_add: false, eintr: 2 }, 3);
+        add(Race { seqs: vec![vec![S], vec![]], late_add: true, eintr: 2 }, 4);
     }
     v
 }
